@@ -34,8 +34,11 @@ ID_KINDS = {
 TAGS_BY_KIND = {'int': (None, 0, 11, 1), 'uuid': (None, 't', 'tu'), 'str': (None, '', 'tu', 't')}
 
 
+@persistence.auto_persist('extra')
 class Stepper(plumpy.Process):
     """A live process that can be advanced by the harness: each advance emits an output and moves to the next state."""
+
+    extra: Any = None
 
     @classmethod
     def define(cls, spec: Any) -> None:
@@ -57,8 +60,11 @@ class Stepper(plumpy.Process):
         return 3
 
 
+@persistence.auto_persist('extra')
 class Chain(plumpy.WorkChain):
     """A live work chain advanced one step at a time; its steps mutate objects held in ctx *in place*."""
+
+    extra: Any = None
 
     @classmethod
     def define(cls, spec: Any) -> None:
@@ -180,12 +186,12 @@ class System:
             # the persisters answer, the store stays what it was
             import threading
             proc = self.procs[op[1]]
-            holder = proc.ctx if isinstance(proc, Chain) else proc.outputs
-            holder['unsavable'] = threading.Lock()
+            # (a persisted member of the harness's own classes: nothing is assumed about what ctx / outputs hand out)
+            proc.extra = threading.Lock()
             try:
                 res = both(lambda p: p.save_checkpoint(proc, op[2]))
             finally:
-                del holder['unsavable']
+                proc.extra = None
             for (name, (status, value)) in zip(('memory', 'pickle'), res):
                 if status == 'ok':
                     bad.append(('unsavable-state-saved', {'persister': name, 'id_kind': self.kind}, None))
@@ -204,7 +210,7 @@ class System:
                         keys = sorted(k for k in set(got) | set(self.model[key]) if got.get(k) != self.model[key].get(k))
                         bad.append(('load-returns-other-snapshot', {'persister': name, 'id_kind': self.kind,
                                                                     'differs': keys[0] if keys else '?'}, keys))
-                elif status == 'ok':
+                elif status == 'ok' and value is not None:  # (an absent key may raise or answer None, like a map; not a bundle)
                     bad.append(('load-of-absent-key-returns', {'persister': name, 'id_kind': self.kind}, repr(value)[:100]))
             return bad
         if kind == 'continue':
